@@ -9,6 +9,8 @@ import AioftpModel.Driver.Faults
 import AioftpModel.Driver.Abort
 import AioftpModel.Driver.Logs
 import AioftpModel.Driver.Framing
+import AioftpModel.Driver.Throttle
+import AioftpModel.Driver.Transfer
 
 open Codec Model Py
 
@@ -54,6 +56,8 @@ def handlePure : List String → Option String
   | "abor" :: rest => DriverAbort.handleAbort rest
   | "logs" :: rest => DriverLogs.handleLogs rest
   | "framing" :: rest => DriverFraming.handleFraming rest
+  | "throttle" :: rest => handleThrottle rest
+  | "xfer" :: rest => DriverTransfer.handleTransfer rest
   | _ => none
 
 def handle (st : DState) (line : String) : DState × String :=
